@@ -490,6 +490,25 @@ def init (g : Cycles.GoodCfg) (pstep thr : Rat) (cache : Bool) (ph : List Rat) :
   computeMetric { cv, K := nLabels cv, phase := ph, thr, cache, metrics := [], sel := none }
     isGoodName ph (isGoodF g) .cycle
 
+/-- `Cycles(IP, phase_step, phase_edge, compute_timings, mode, use_cache)` with ALL its options.  The
+    constructor accepts `mode` and does not use it: the quality flag is always `compute_cycle_metric('is_good',
+    phase, is_good)` in its default mode 'cycle' (the wrap-delimited cycle), whatever `mode` says;
+    `compute_timings=True` runs `compute_cycle_timings()` after the flag has been stored. -/
+def initOpts (g : Cycles.GoodCfg) (pstep thr : Rat) (cache : Bool) (_mode : Mode) (timings : Bool)
+    (ph : List Rat) : State × Except Err Out :=
+  let r := init g pstep thr cache ph
+  match r.2 with
+  | .error _ => r
+  | .ok _ => if timings then computeTimings r.1 else r
+
+/-- `Cycles(...).metrics['is_good']` as 0/1 flags (`none`: the metric is missing or holds something else) -/
+def isGoodFlags (s : State) : Option (List Bool) :=
+  match sget s.metrics isGoodName with
+  | none => none
+  | some v => v.mapM fun
+    | some r => if r = 1 then some true else if r = 0 then some false else none
+    | none => none
+
 /-! ### line protocol
 
   `CONT step= edge= twopi= endlo= thr= cache= | phase | [nprobe] | (cond chars | float table)* | ops…`
@@ -652,6 +671,27 @@ def handle (o : Protocol.Op) : Option String :=
         let r := init { edge, twopi, endlo } pstep thr (cache != 0) ph
         return "ok" ++ fmtStatus r.2 ++ fmtObs F probe r.1 ++ runAndPrint F probe r.1 ops
       | _ => return "bad-op"
+  | "CYGOODC" => some <| Id.run do
+      -- the container's quality flag THROUGH THE CONSTRUCTOR with all its options:
+      -- `CYGOODC step= edge= twopi= endlo= thr= cache=0|1 mode=0|1 timings=0|1 | phase` → `ok | flags`
+      let some pstep := o.rat? "step" | return "bad-op"
+      let some edge := o.rat? "edge" | return "bad-op"
+      let some twopi := o.rat? "twopi" | return "bad-op"
+      let some endlo := o.rat? "endlo" | return "bad-op"
+      let some thr := o.rat? "thr" | return "bad-op"
+      let some cache := o.nat? "cache" | return "bad-op"
+      let some md := o.nat? "mode" | return "bad-op"
+      let some tm := o.nat? "timings" | return "bad-op"
+      let some ph := o.vec? 0 | return "bad-op"
+      if ph.length = 0 then return "err ValueError"
+      let some mode := (if md = 0 then some Mode.cycle else if md = 1 then some Mode.augmented else none) | return "bad-op"
+      let r := initOpts { edge, twopi, endlo } pstep thr (cache != 0) mode (tm != 0) ph
+      match r.2 with
+      | .error e => return s!"err {e.kind}"
+      | .ok _ =>
+        match isGoodFlags r.1 with
+        | none => return "err NoFlag"
+        | some flags => return s!"ok K={r.1.K} | {" ".intercalate (flags.map fmtBool)}"
   | _ => none
 
 end Container
